@@ -87,6 +87,10 @@ def grammar_corpus():
     c["unused_terminal"] = shape("N0", "ab", "N0 -> a N0", "N0 -> a")
     c["sss"] = shape("N0", "a", "N0 -> N0 N0 N0", "N0 -> a", "N0 ->")
     c["x_unary_null"] = shape("N0", "ab", "N0 -> N1", "N1 -> N2", "N2 ->", "N2 -> a N0", "N1 -> b")
+    # no terminal at all: the language is {empty string}, its weight an infinite sum through nullable rules; the prefix machinery
+    # runs on a transducer whose only states have no arcs (seeded change C03-8)
+    c["empty_vocabulary"] = shape("N0", "", "N0 -> N1 N1", "N1 ->", "N1 -> N1 N1", "N0 ->")
+    c["empty_vocabulary_unary"] = shape("N0", "", "N0 -> N1", "N1 -> N0", "N1 ->")
     # a pure terminal class (all rules X -> t) one of whose terminals is also written literally inside a longer rule: the class
     # must not be reused as the preterminal of that literal (seeded changes C06-3, C01-6)
     c["terminal_class"] = shape("N0", "abc", "N0 -> N1 c N2", "N0 -> a N2", "N1 -> a", "N1 -> b", "N2 -> c", "N2 -> b c")
